@@ -311,6 +311,9 @@ def run(env):
     res = env.drive("histories", cw.text())
     env.require_complete(res, "histories")
     mr = env.pmap(monitor, res.sessions, workload="histories")
+    res_f = env.drive("histories", cw.text(), build="fast")
+    env.require_complete(res_f, "histories/fast")
+    env.pmap(monitor, res_f.sessions, workload="histories")
     env.extra_cov["histories"] = mr.counts["histories"]
     aeads = [gen.SEAL_AEADS[env.seed % 3]] if env.quick() else gen.SEAL_AEADS
     res2 = env.drive("longrun", build_longrun(env, env.pick(66000, 140000), aeads).text())
